@@ -303,6 +303,16 @@ def c11(tier):
             steps += [op(0, *c) for c in SETUP[ty]]
             steps += [x("PROBE"), x("REOPEN"), x("PROBE"), op(0, *w), x("PROBE"), x("REOPEN"), x("PROBE")]
             cases.append(("c11-writer-%s-%d-%s" % (be, i, w[0]), be, steps))
+        # a key that was stored without a deadline, then given one, stored again, and whose deadline passes before Close
+        for i, (mk, exp) in enumerate(((["SET", "k", "v"], ["PEXPIRE", "k", "40"]), (["RPUSH", "k", "a", "b"], ["PEXPIRE", "k", "40"]),
+                                       (["HSET", "k", "f", "1"], ["PEXPIRE", "k", "40"]), (["SET", "k", "v"], ["SET", "k", "w", "PX", "40"]))):
+            steps = [op(0, "SET", "o", "other"), op(0, *mk), x("FLUSH"), x("PROBE"), x("REOPEN"), x("PROBE"), op(0, *exp), x("FLUSH"), x("SLEEP", "70"),
+                     x("PROBE"), x("REOPEN"), x("PROBE"), op(0, "EXISTS", "k"), op(0, "TYPE", "k")]
+            cases.append(("c11-deadline-passes-%s-%d" % (be, i), be, steps))
+        # a stored key overwritten by a version whose deadline has already passed (listed finding REOPEN/expired-alive)
+        steps = [op(0, "SET", "o", "other"), op(0, "SET", "k", "v"), x("FLUSH"), op(0, "SET", "k", "w", "EXAT", "1"), x("SLEEP", "30"),
+                 x("PROBE"), x("REOPEN"), x("PROBE"), op(0, "GET", "k")]
+        cases.append(("c11-expired-version-%s" % be, be, steps))
     return cases
 
 
